@@ -133,6 +133,186 @@ func addrRoots(v ssa.Value, seen map[ssa.Value]bool, out map[string]bool, depth 
 	}
 }
 
+// readsFieldAround reports whether a read of the field "T.f" dominates the instruction or is reachable from it.
+func readsFieldAround(in ssa.Instruction, tf string) bool {
+	isRead := func(x ssa.Instruction) bool {
+		switch v := x.(type) {
+		case *ssa.FieldAddr:
+			pt, ok := v.X.Type().Underlying().(*types.Pointer)
+			if !ok {
+				return false
+			}
+			if n, ok := pt.Elem().(*types.Named); ok {
+				if st, ok := n.Underlying().(*types.Struct); ok && n.Obj().Name()+"."+st.Field(v.Field).Name() == tf {
+					// a read, not the address of a store target
+					for _, r := range *v.Referrers() {
+						if u, ok := r.(*ssa.UnOp); ok && u.Op == token.MUL {
+							return true
+						}
+					}
+				}
+			}
+		case *ssa.Field:
+			if n, ok := v.X.Type().(*types.Named); ok {
+				if st, ok := n.Underlying().(*types.Struct); ok && n.Obj().Name()+"."+st.Field(v.Field).Name() == tf {
+					return true
+				}
+			}
+		}
+		return false
+	}
+	b := in.Block()
+	// dominating: earlier in this block or in a dominator
+	for _, x := range b.Instrs {
+		if x == in {
+			break
+		}
+		if isRead(x) {
+			return true
+		}
+	}
+	for d := b.Idom(); d != nil; d = d.Idom() {
+		for _, x := range d.Instrs {
+			if isRead(x) {
+				return true
+			}
+		}
+	}
+	// reachable: later in this block or in any block reachable from it
+	after := false
+	for _, x := range b.Instrs {
+		if after && isRead(x) {
+			return true
+		}
+		if x == in {
+			after = true
+		}
+	}
+	seen := map[*ssa.BasicBlock]bool{}
+	var walk func(b *ssa.BasicBlock) bool
+	walk = func(b *ssa.BasicBlock) bool {
+		for _, s := range b.Succs {
+			if seen[s] || s.Dominates(in.Block()) {
+				// not around a loop: the next iteration is about another item
+				continue
+			}
+			seen[s] = true
+			for _, x := range s.Instrs {
+				if isRead(x) {
+					return true
+				}
+			}
+			if walk(s) {
+				return true
+			}
+		}
+		return false
+	}
+	return walk(b)
+}
+
+// storeBefore reports whether a store to field "T.f" whose value matches the pattern occurs before the instruction in
+// its block, or in a block from which the instruction's block is reachable.
+func storeBefore(p *Program, in ssa.Instruction, tf string, pat string) bool {
+	target := in.Block()
+	matches := func(x ssa.Instruction) bool {
+		st, ok := x.(*ssa.Store)
+		if !ok {
+			return false
+		}
+		if _, ok := siteMatches(p, "store "+tf, st); !ok {
+			return false
+		}
+		for _, alt := range strings.Split(pat, " OR ") {
+			if pathMatches(valuePath(st.Val), strings.TrimSpace(alt)) {
+				return true
+			}
+		}
+		return false
+	}
+	for _, x := range target.Instrs {
+		if x == in {
+			break
+		}
+		if matches(x) {
+			return true
+		}
+	}
+	reaches := func(from *ssa.BasicBlock) bool {
+		seen := map[*ssa.BasicBlock]bool{}
+		var walk func(b *ssa.BasicBlock) bool
+		walk = func(b *ssa.BasicBlock) bool {
+			for _, s := range b.Succs {
+				if s == target {
+					return true
+				}
+				if !seen[s] {
+					seen[s] = true
+					if walk(s) {
+						return true
+					}
+				}
+			}
+			return false
+		}
+		return walk(from)
+	}
+	for _, b := range target.Parent().Blocks {
+		if b == target {
+			continue
+		}
+		for _, x := range b.Instrs {
+			if matches(x) && reaches(b) {
+				return true
+			}
+		}
+	}
+	return false
+}
+
+// staleOnBackEdge: the loop-carried variable `name` (a phi at the header of the innermost loop around the instruction)
+// keeps its top-of-iteration value on a back edge that the instruction can reach. Returns "" if every such edge carries
+// a new value.
+func staleOnBackEdge(in ssa.Instruction, name string) string {
+	b := in.Block()
+	// the innermost loop header that dominates the site and has a phi of that name
+	var phi *ssa.Phi
+	for h := b; h != nil && phi == nil; h = h.Idom() {
+		for _, x := range h.Instrs {
+			if p, ok := x.(*ssa.Phi); ok && p.Comment == name {
+				phi = p
+				break
+			}
+		}
+	}
+	if phi == nil {
+		return "no loop-carried variable named " + name + " around this site"
+	}
+	header := phi.Block()
+	// blocks reachable from the site without passing through the header
+	seen := map[*ssa.BasicBlock]bool{b: true}
+	var walk func(x *ssa.BasicBlock)
+	walk = func(x *ssa.BasicBlock) {
+		for _, s := range x.Succs {
+			if s == header || seen[s] {
+				continue
+			}
+			seen[s] = true
+			walk(s)
+		}
+	}
+	walk(b)
+	for i, pred := range header.Preds {
+		if !seen[pred] {
+			continue
+		}
+		if phi.Edges[i] == ssa.Value(phi) {
+			return "after this site the loop continues (edge from block " + fmt.Sprint(pred.Index) + ") with `" + name + "` still holding the value it had before the site"
+		}
+	}
+	return ""
+}
+
 // localOf returns the local variable (Alloc) that an address is a field/element of, or nil.
 func localOf(v ssa.Value) *ssa.Alloc {
 	for depth := 0; depth < 8; depth++ {
@@ -537,6 +717,16 @@ func runUnguardedRules(p *Program, id string) ([]*Gen, []string) {
 					if !ok {
 						continue
 					}
+					if wa := kv["when-arg"]; wa != "" {
+						// only calls whose N-th argument has this shape (when-arg=N:PATTERN)
+						parts := strings.SplitN(wa, ":", 2)
+						var an int
+						fmt.Sscanf(parts[0], "%d", &an)
+						c, isCall := in.(*ssa.Call)
+						if !isCall || len(parts) != 2 || an >= len(c.Call.Args) || !pathMatches(valuePath(c.Call.Args[an]), parts[1]) {
+							continue
+						}
+					}
 					if w := kv["when"]; w != "" {
 						// only stores whose value has this shape
 						st, isSt := in.(*ssa.Store)
@@ -657,6 +847,32 @@ func runUnguardedRules(p *Program, id string) ([]*Gen, []string) {
 								o.Pre = "sat"
 								o.Model = "the store writes " + valuePath(st.Addr) + " of the local copy `" + al.Comment + "`, and no path from here reads that copy again before it is overwritten: the write is lost"
 							}
+						}
+					}
+					// something must have been written before the site is reached (preceded-by-store=T.f:VALUEPATTERN): a store
+					// to field f of a T whose value matches, in this block before the site or in a block the site is reachable from
+					if ps := kv["preceded-by-store"]; ps != "" {
+						parts := strings.SplitN(ps, ":", 2)
+						if len(parts) == 2 && !storeBefore(p, in, parts[0], parts[1]) {
+							o.Pre = "sat"
+							o.Model = "no store to " + parts[0] + " of a value like " + parts[1] + " can reach this site"
+						}
+					}
+					// a loop-carried variable must be re-established after the site (then-updates=NAME): on every back edge of
+					// the enclosing loop that is reachable from the site, the variable's value is not simply the one it had at
+					// the top of the iteration
+					if tu := kv["then-updates"]; tu != "" {
+						if why := staleOnBackEdge(in, tu); why != "" {
+							o.Pre = "sat"
+							o.Model = why
+						}
+					}
+					// a decision that belongs to the site (then-reads=T.f): the function reads field f of a T either before the
+					// site on every path or somewhere reachable from it (e.g. "wrap the call in await if the callee is async")
+					if tr := kv["then-reads"]; tr != "" {
+						if !readsFieldAround(in, tr) {
+							o.Pre = "sat"
+							o.Model = "no read of " + tr + " dominates this site or is reachable from it: what is built here never depends on it"
 						}
 					}
 					// required shape of the written location (targetpath=pat | pat)
